@@ -259,6 +259,9 @@ OBJS_GLOBALNS = {
 }
 # classes that only work with SerializerConfig.globalns: never a parse target, never named by a fault
 SERIALIZE_ONLY = {"m_edge.NeedsGlobals"}
+OBJS_GLOBALNS2 = {
+    "needsglobals2": (lambda: me.NeedsGlobals(hidden_part=me._HiddenPart2(w="x"), hidden_parts=[me._HiddenPart2(w="y")], hidden_label="l2"), "m_edge.NeedsGlobals"),
+}
 # late modules an object needs registered before it can be touched
 OBJ_NEEDS = {"bird": "L1", "zoo_bird": "L1", "lateroot": "L1", "latetwo": "L2"}
 
